@@ -1,6 +1,221 @@
-//! C18: implementation-side case runners (see props/c18.py). Stub until the property is built.
+//! C18: 8-bit attribute codec and code-page converters through the public API (see props/c18.py).
+//!
+//! Modes are numbered as `IceMode::to_byte` does: 0 Unlimited, 1 Blink, 2 Ice.
+//! Converters: cp437 | atascii | petscii | viewdata | mode7.
+//! An attribute is observed as [get_foreground, get_background, attr, get_font_page].
 use crate::Obs;
+use icy_engine::{AttributedChar, IceMode, TextAttribute, UnicodeConverter};
 
-pub fn run(_kind: &str, _args: &[&str]) -> Option<Obs> {
-    None
+fn mode(s: &str) -> IceMode {
+    match s {
+        "0" => IceMode::Unlimited,
+        "1" => IceMode::Blink,
+        "2" => IceMode::Ice,
+        _ => panic!("bad mode"),
+    }
+}
+
+fn conv(s: &str) -> Box<dyn UnicodeConverter> {
+    match s {
+        "cp437" => Box::<icy_engine::ascii::CP437Converter>::default(),
+        "atascii" => Box::<icy_engine::atascii::CharConverter>::default(),
+        "petscii" => Box::<icy_engine::petscii::CharConverter>::default(),
+        "viewdata" => Box::<icy_engine::viewdata::CharConverter>::default(),
+        "mode7" => Box::<icy_engine::mode7::CharConverter>::default(),
+        _ => panic!("bad converter"),
+    }
+}
+
+fn obs_attr(v: &mut Vec<i64>, a: TextAttribute) {
+    v.push(a.get_foreground() as i64);
+    v.push(a.get_background() as i64);
+    v.push(a.attr as i64);
+    v.push(a.get_font_page() as i64);
+}
+
+fn mk(fg: u32, bg: u32, attr: u16, page: usize) -> TextAttribute {
+    let mut a = TextAttribute::new(fg, bg);
+    a.attr = attr;
+    a.set_font_page(page);
+    a
+}
+
+fn u(s: &str) -> u64 {
+    s.parse().unwrap()
+}
+
+pub fn run(kind: &str, args: &[&str]) -> Option<Obs> {
+    let mut v: Vec<i64> = Vec::new();
+    match kind {
+        // from_u8 on all 256 bytes of one mode
+        "attrdec" => {
+            let m = mode(args[0]);
+            for b in 0..=255u8 {
+                obs_attr(&mut v, TextAttribute::from_u8(b, m));
+            }
+        }
+        // decode then encode, all 256 bytes of one mode
+        "attrrt" => {
+            let m = mode(args[0]);
+            for b in 0..=255u8 {
+                v.push(TextAttribute::from_u8(b, m).as_u8(m) as i64);
+            }
+        }
+        // as_u8 on the 16x16 colour grid with a given flag word and font page
+        "attrenc" => {
+            let m = mode(args[0]);
+            let (attr, page) = (u(args[1]) as u16, u(args[2]) as usize);
+            for fg in 0..16u32 {
+                for bg in 0..16u32 {
+                    v.push(mk(fg, bg, attr, page).as_u8(m) as i64);
+                }
+            }
+        }
+        // as_u8 on one arbitrary attribute
+        "attrenc1" => {
+            let m = mode(args[0]);
+            v.push(mk(u(args[1]) as u32, u(args[2]) as u32, u(args[3]) as u16, u(args[4]) as usize).as_u8(m) as i64);
+        }
+        // encode then decode on the 16x16 colour grid, attribute built with the public setters;
+        // per cell: [foreground, is_bold, background, is_blinking] of the decoded attribute
+        "attrencdec" => {
+            let m = mode(args[0]);
+            let (blink, bold) = (args[1] == "1", args[2] == "1");
+            for fg in 0..16u32 {
+                for bg in 0..16u32 {
+                    let mut a = TextAttribute::new(fg, bg);
+                    a.set_is_blinking(blink);
+                    a.set_is_bold(bold);
+                    let d = TextAttribute::from_u8(a.as_u8(m), m);
+                    v.push(d.get_foreground() as i64);
+                    v.push(d.is_bold() as i64);
+                    v.push(d.get_background() as i64);
+                    v.push(d.is_blinking() as i64);
+                }
+            }
+        }
+        // from_color for fg in lo..lo+n and every bg
+        "fromcolor" => {
+            let (lo, n) = (u(args[0]), u(args[1]));
+            for fg in lo..lo + n {
+                for bg in 0..=255u8 {
+                    // packed: fg | bg << 8 | attr << 16 | font_page << 32 (colours of from_color are u8-derived)
+                    let a = TextAttribute::from_color(fg as u8, bg);
+                    assert!(a.get_foreground() < 256 && a.get_background() < 256 && a.get_font_page() < (1 << 30));
+                    v.push(a.get_foreground() as i64 | (a.get_background() as i64) << 8 | (a.attr as i64) << 16 | (a.get_font_page() as i64) << 32);
+                }
+            }
+        }
+        // bold / blink setters and getters on flag words lo..lo+n, two packed numbers per word:
+        // (blink:=true) | (blink:=false) << 16 | is_blinking << 32 ; (bold:=true) | (bold:=false) << 16 | is_bold << 32
+        "flags" => {
+            let (lo, n) = (u(args[0]), u(args[1]));
+            for w in lo..lo + n {
+                let a = mk(7, 0, w as u16, 0);
+                let mut r = [0i64; 4];
+                for (i, (which, val)) in [(0, true), (0, false), (1, true), (1, false)].into_iter().enumerate() {
+                    let mut b = a;
+                    if which == 0 {
+                        b.set_is_blinking(val);
+                    } else {
+                        b.set_is_bold(val);
+                    }
+                    r[i] = b.attr as i64;
+                }
+                v.push(r[0] | r[1] << 16 | (a.is_blinking() as i64) << 32);
+                v.push(r[2] | r[3] << 16 | (a.is_bold() as i64) << 32);
+            }
+        }
+        // convert_to_unicode on code points lo..lo+n (-1 where the value is not a char)
+        "convto" | "convfrom" => {
+            let c = conv(args[0]);
+            let (lo, n) = (u(args[1]), u(args[2]));
+            let page = if args.len() > 3 { u(args[3]) as usize } else { 0 };
+            for x in lo..lo + n {
+                match char::from_u32(x as u32) {
+                    None => v.push(-1),
+                    Some(ch) => {
+                        let r = if kind == "convto" {
+                            c.convert_to_unicode(AttributedChar::new(ch, mk(page as u32, 3, page as u16, page)))
+                        } else {
+                            c.convert_from_unicode(ch, page)
+                        };
+                        v.push(r as u32 as i64);
+                    }
+                }
+            }
+        }
+        // the same on a list of code points
+        "convtol" | "convfroml" => {
+            let c = conv(args[0]);
+            for s in &args[1..] {
+                let ch = char::from_u32(u(s) as u32).unwrap();
+                let r = if kind == "convtol" {
+                    c.convert_to_unicode(AttributedChar::new(ch, TextAttribute::default()))
+                } else {
+                    c.convert_from_unicode(ch, 0)
+                };
+                v.push(r as u32 as i64);
+            }
+        }
+        // the whole `char` domain from `lo` up: every (c, f(c)) with f(c) != c; dir = to | from
+        "convnonid" => {
+            let c = conv(args[0]);
+            let lo = u(args[2]) as u32;
+            let hi = if args.len() > 3 { u(args[3]) as u32 } else { 0x11_0000 };
+            for x in lo..hi {
+                if let Some(ch) = char::from_u32(x) {
+                    let r = if args[1] == "to" {
+                        c.convert_to_unicode(AttributedChar::new(ch, TextAttribute::default()))
+                    } else {
+                        c.convert_from_unicode(ch, 0)
+                    };
+                    if r != ch {
+                        v.push(x as i64);
+                        v.push(r as u32 as i64);
+                    }
+                }
+            }
+        }
+        // property oracle: from_color(fg, bg) encodes in Blink mode to fg | bg << 4 (low nibbles), all u8 x u8:
+        // [number of mismatches, then up to 8 of them as fg, bg, byte]
+        "fromcolorrt" => {
+            let mut bad = Vec::new();
+            let mut n = 0i64;
+            for fg in 0..=255u8 {
+                for bg in 0..=255u8 {
+                    let got = TextAttribute::from_color(fg, bg).as_u8(IceMode::Blink);
+                    if got != (fg & 15) | ((bg & 15) << 4) {
+                        n += 1;
+                        if bad.len() < 24 {
+                            bad.extend([fg as i64, bg as i64, got as i64]);
+                        }
+                    }
+                }
+            }
+            v.push(n);
+            v.extend(bad);
+        }
+        // property oracle: code -> unicode -> code on all 256 codes
+        "cprt" => {
+            let c = conv(args[0]);
+            for x in 0..256u32 {
+                let ch = char::from_u32(x).unwrap();
+                let uni = c.convert_to_unicode(AttributedChar::new(ch, TextAttribute::default()));
+                v.push(c.convert_from_unicode(uni, 0) as u32 as i64);
+            }
+        }
+        // property oracle: typed character -> emulation code -> character, on the given characters
+        "typed" => {
+            let c = conv(args[0]);
+            for s in &args[1..] {
+                let ch = char::from_u32(u(s) as u32).unwrap();
+                let code = c.convert_from_unicode(ch, 0);
+                v.push(code as u32 as i64);
+                v.push(c.convert_to_unicode(AttributedChar::new(code, TextAttribute::default())) as u32 as i64);
+            }
+        }
+        _ => return None,
+    }
+    Some(Ok(v))
 }
